@@ -148,6 +148,17 @@ class Dataset:
                                                               ('' if isinstance(dtype, _VLen)
                                                                and dtype.base is str else 0.0))))
         self.resizes = []
+        self.force_rows = False
+
+    def _nd(self, a):
+        """What h5py hands back for a read: a plain ndarray (object dtype here, so that
+        solver terms survive); symbolic content is wrapped as SymArray."""
+        a = np.asarray(a, dtype=object)
+        if any(isinstance(x, (SymReal, P.SymBool)) for x in a.ravel()):
+            return a.view(A.SymArray)
+        if a.size and all(isinstance(x, (bool, np.bool_)) for x in a.ravel()):
+            return a.astype(bool)
+        return a
 
     # ---- shape
     @property
@@ -213,18 +224,26 @@ class Dataset:
             for (e, k, v) in reversed(pend):
                 if e is not True:
                     raise SymError("partial read with undecided row match")
-                rest = k[len(key):]
-                if len(rest) == 0:
-                    vv = np.asarray(A._to_obj_array(list(v)) if isinstance(v, (list, tuple))
-                                    else v, dtype=object)
-                    out[...] = vv
-                else:
-                    out[tuple(int(r) for r in rest)] = v
-            return out
+                rest = tuple(int(r) for r in k[len(key):])
+                _fill(out, rest, v)
+            return self._decode(out)
         val = self.fill
         for (e, k, v) in reversed(pend):
             val = v if e is True else P.ite(e, v, val)
-        return val
+        return self._decode(val)
+
+    def _decode(self, v):
+        """h5py returns variable-length strings as bytes objects."""
+        if not (isinstance(self.dtype, _VLen) and self.dtype.base is str):
+            return v
+        if isinstance(v, str):
+            return v.encode()
+        if isinstance(v, np.ndarray):
+            out = np.empty(v.shape, dtype=object)
+            for i in np.ndindex(v.shape):
+                out[i] = v[i].encode() if isinstance(v[i], str) else v[i]
+            return out
+        return v
 
     def _gather(self, rows):
         rows = list(rows)
@@ -252,9 +271,9 @@ class Dataset:
                 b = _clamp(b, a, n)
                 return Rows(self, a, b)
             rng = range(*key.indices(int(n)))
-            if key.step in (None, 1):
+            if key.step in (None, 1) and self.force_rows:
                 return Rows(self, rng.start, max(rng.start, rng.stop))
-            return self._gather(rng)
+            return self._nd(self._gather(rng))
         if isinstance(key, tuple):
             if isinstance(key[0], slice):
                 n = self._shape[0]
@@ -266,14 +285,36 @@ class Dataset:
                     tail = [int(s) for s in self._shape[len(key):]]
                     return np.empty([0] + tail, dtype=object).view(A.SymArray)
                 return np.stack([np.asarray(g, dtype=object) for g in got], axis=0).view(A.SymArray)
-            return self._lookup(tuple(key))
-        return self._lookup((key,))
+            r = self._lookup(tuple(key))
+            return self._nd(r) if isinstance(r, np.ndarray) else r
+        r = self._lookup((key,))
+        return self._nd(r) if isinstance(r, np.ndarray) else r
 
     def __iter__(self):
         return iter(self._gather(range(len(self))))
 
     def __array__(self, dtype=None, copy=None):
         return np.asarray(self._gather(range(len(self))), dtype=dtype)
+
+
+def _fill(out, idx, v):
+    """out[idx] = v where v may span the remaining dimensions of out."""
+    if len(idx) == out.ndim:
+        out[idx] = v
+        return
+    n = out.shape[len(idx)]
+    try:
+        ln = len(v)
+    except TypeError:
+        ln = None
+    if ln is None:
+        for t in range(n):
+            _fill(out, idx + (t,), v)
+        return
+    if ln != n:
+        raise ValueError("could not broadcast input of length %d into axis of length %d" % (ln, n))
+    for t in range(n):
+        _fill(out, idx + (t,), v[t])
 
 
 class _VLen:
